@@ -286,8 +286,8 @@ def main():
         for t in r['timeouts']:
             ntimeouts += 1
             ck.count('timeouts')
-            if t == 'get_components' and ntimeouts <= 3:
-                ck.corr_break('bct.get_components hit the watchdog although the Comp model terminates', {'job': job})
+            if ntimeouts <= 3:   # the Comp model and the three Dist models (C03: distBin_total, breadthdist_total) always return
+                ck.corr_break('bct.%s hit the watchdog although its Lean model terminates' % t, {'job': job})
         for ln, ex, fn in r['lines']:
             lines.append(ln); exps.append(ex); funcs.append(fn)
     if ok:
